@@ -212,6 +212,8 @@ TB_CORR = ["correspondence check: harness/driver.cpp (C++, built from /repo's wo
 
 TB_ICU_LAWS = "ICU laws H_ascii and H_keep (Properties_C07.v) are explicit premises of the conformance theorems; they are sampled against the real ICU by the host stream on every C07 run, not proved"
 
+TB_ICU_LAWS2 = "ICU laws idna_ascii_lower (Properties_C08.v) and idna_idem (Proofs/ReparseDefs.v) are explicit premises of the invariance theorems (C02_reparse itself has none); they are sampled against the real ICU on every run, not proved"
+
 PROPS = {
     "C13": P("proof", proof_search=c13_search,
         trusted_base=[
@@ -219,7 +221,7 @@ PROPS = {
             "Spec.CodePoints: hand transcription of the Standard's set definitions (DESIGN appendix A.1)"],
         assumptions=["the four language modes are exercised with g++ 12.2 only"]),
     "C01": P("proof", model_variants=["spec", "impl"], streams=["parse", "parse_exhaustive"], trusted_base=TB_CORR + [TB_ICU_LAWS], coq_files=["Properties_C01_total.v", "Properties_C01.v"]),
-    "C02": P("exploration", model_variants=["spec", "impl"], streams=["reparse"], trusted_base=TB_CORR),
+    "C02": P("proof", model_variants=["spec", "impl"], streams=["reparse"], trusted_base=TB_CORR + [TB_ICU_LAWS2]),
     "C03": P("proof", model_variants=["spec", "impl"], streams=["setters"], trusted_base=TB_CORR + [TB_ICU_LAWS]),
     "C05": P("exploration", model_variants=["spec", "impl"], streams=["histories"], trusted_base=TB_CORR, coq_files=["Properties_C06.v"]),
     "C06": P("proof", ["histories"], trusted_base=TB_CORR),
